@@ -207,6 +207,19 @@ CapturedCases ==
         <<FnDecl("mk", CapParams, WFn(<<>>, WInt), <<Ret(FnE(<<>>, WInt, CapForm(k)))>>),
           Set("clo", CallE(V("mk"), CapArgs)), TupE(<<CallE(V("clo"), <<>>), CallE(V("clo"), <<>>)>>)>>,
         TupV(<<IntV(CapWant(k)), IntV(CapWant(k))>>)) : k \in CapKinds}
+  \* two levels: the closure that uses the operands is made by a closure that is made by the function holding them
+  \* (the specialisation pass runs once per level)
+  \cup {Case("captured2-" \o k,
+        <<FnDecl("mk", CapParams, WFn(<<>>, WFn(<<>>, WInt)), <<Ret(FnE(<<>>, WFn(<<>>, WInt), <<Ret(FnE(<<>>, WInt, CapForm(k)))>>))>>),
+          Set("mid", CallE(V("mk"), CapArgs)), Set("clo", CallE(V("mid"), <<>>)), Set("clo2", CallE(V("mid"), <<>>)),
+          TupE(<<CallE(V("clo"), <<>>), CallE(V("clo2"), <<>>)>>)>>,
+        TupV(<<IntV(CapWant(k)), IntV(CapWant(k))>>)) : k \in CapKinds}
+  \* ... and the operands are used in a function DECLARED (by name, so it can also call itself) inside the closure
+  \cup {Case("captured-in-declared-" \o k,
+        <<FnDecl("mk", CapParams, WFn(<<>>, WInt),
+                 <<FnDecl("inner", <<>>, WInt, CapForm(k)), Ret(V("inner"))>>),
+          Set("clo", CallE(V("mk"), CapArgs)), TupE(<<CallE(V("clo"), <<>>), CallE(V("clo"), <<>>)>>)>>,
+        TupV(<<IntV(CapWant(k)), IntV(CapWant(k))>>)) : k \in CapKinds}
   \* the closure writes a captured cell: the two calls see each other's writes
   \cup {Case("captured-deref-assign",
         <<FnDecl("mk", CapParams, WFn(<<>>, WInt), <<Ret(FnE(<<>>, WInt, CapForm("deref-assign")))>>),
